@@ -56,10 +56,10 @@ def judge_state(st, ctx):
     deg = degenerate_kind(root)
     labels = [chars(x) for x in exp["labels"]]
     odd = [lab for lab in labels if lab and not re.fullmatch(r"[A-Za-z0-9_]+", lab)]
-    prefix = f"degenerate:{deg}:" if deg else ("label-not-an-identifier:" if odd else "")
+    prefix = "degenerate-shape:" if deg else ("label-not-an-identifier:" if odd else "")
 
     def fail(sig, detail):
-        res.append(("violation", prefix + sig, case, f"{show(root)}: {detail}"))
+        res.append(("violation", prefix + sig, case, f"{show(root)}{' [' + deg + ']' if deg else ''}: {detail}"))
 
     n = exp["n"]
     real_root = c.get_connections(recursive=False)[0]
